@@ -125,7 +125,7 @@ def main():
         "setup_cmd": "/venv/bin/python -c \"import sys; sys.path.insert(0, '/repo'); import regex, dateutil, ctparse; print('qsim setup ok', ctparse.__file__)\"",
         "hooks": {
             "guard": "QUICKADD_VERIF",
-            "enable": "no hooks: every seam is a module global or an existing parameter (ctparse.timers.perf_counter, datetime in ctparse.ctparse, scorer=, max_stack_depth=, bz2 in ctparse.nb_scorer, DEFAULT_MODEL_FILE); checks import /repo's working tree directly",
+            "enable": "no hooks: every seam is a module global or an existing parameter (ctparse.timers.perf_counter, datetime in ctparse.ctparse, scorer=, max_stack_depth=, bz2 in ctparse.nb_scorer, DEFAULT_MODEL_FILE, the class attribute CTParsePipeline.predict_log_proba, timeout_ in ctparse.ctparse, and the process environment variable TZ); checks import /repo's working tree directly",
             "baseline_off_cmd": "cd /repo && /venv/bin/python -m pytest -ra -q -p no:cacheprovider --timeout=900 --continue-on-collection-errors",
             "source_commits": [],
             "add_only": True,
